@@ -543,9 +543,9 @@ class Optimizer(Logger, Citable):
             return np.nan
 
         res = (mydata.ravel() - final_model.ravel()) / datastd.ravel()
+        if np.all(np.isnan(res)):
+            return np.nan
         res = np.nansum(res*res)
-        if res == 0:
-            res = np.nan
 
         return res
 
